@@ -55,7 +55,7 @@ pub fn make_env(cfg: &Cfg) -> Env {
             }
         }
     }
-    Env { host_bins, shim: cfg.build_dir.join("simhost.so"), aslr_off: true }
+    Env { host_bins, shim: cfg.build_dir.join("simhost.so"), aslr_off: true, fs_dir: cfg.build_dir.join("simfs") }
 }
 
 // ---------------------------------------------------------------- statistics
@@ -98,6 +98,10 @@ struct Stats {
     getpid_calls: u64,
     getpid_in_expansion: u64,
     env_names_in_expansion: BTreeSet<String>,
+    fs_calls_in_expansion: u64,
+    fs_names_in_expansion: BTreeSet<String>,
+    marathon_hosts: u64,
+    longest_history: usize,
     sim_clock_min_ns: i64,
     sim_clock_max_ns: i64,
     distinct_histories: BTreeSet<u64>,
@@ -147,6 +151,10 @@ impl Stats {
         self.getpid_calls += o.getpid_calls;
         self.getpid_in_expansion += o.getpid_in_expansion;
         self.env_names_in_expansion.extend(o.env_names_in_expansion);
+        self.fs_calls_in_expansion += o.fs_calls_in_expansion;
+        self.fs_names_in_expansion.extend(o.fs_names_in_expansion);
+        self.marathon_hosts += o.marathon_hosts;
+        self.longest_history = self.longest_history.max(o.longest_history);
         self.sim_clock_min_ns = self.sim_clock_min_ns.min(o.sim_clock_min_ns);
         self.sim_clock_max_ns = self.sim_clock_max_ns.max(o.sim_clock_max_ns);
         self.distinct_histories.extend(o.distinct_histories);
@@ -200,7 +208,9 @@ fn host_summary(h: &HostCfg) -> Value {
         "entropy_seed": h.entropy_seed, "entropy_skip": h.entropy_skip,
         "env": h.env.iter().map(|(k, v)| format!("{}={}", k, if v.len() > 24 { format!("<{} bytes>", v.len()) } else { v.clone() })).collect::<Vec<_>>(),
         "clock_epoch_ns": h.clock_epoch_ns, "clock_step_ns": h.clock_step_ns, "pid": h.pid, "cwd": h.cwd, "argv": h.argv,
-        "history": ev,
+        "hostname": h.hostname, "uid": h.uid, "ncpu": h.ncpu,
+        "fs_view": h.fs_map.iter().map(|(k, key, c)| format!("{} {} <{} bytes>", k, key, c.len())).collect::<Vec<_>>(),
+        "history": if ev.len() > 60 { let mut e = ev[..60].to_vec(); e.push(format!("... {} more", ev.len() - 60)); e } else { ev },
     })
 }
 
@@ -213,6 +223,7 @@ struct WorldOutcome {
     divergence: Option<(Divergence, bool)>,
     harness_error: Option<String>,
     env_names: Vec<String>,
+    fs_names: Vec<String>,
     /// kept only for divergent worlds: exactly what was executed
     world: Option<World>,
 }
@@ -245,7 +256,7 @@ fn run_world(env: &Env, idx: usize, ws: u64, corpus: &corpus::Corpus, po: &PlanO
 
     let logs = match exec_world(env, &w) {
         Ok(l) => l,
-        Err(e) => return WorldOutcome { idx, seed: ws, stats: st, divergence: None, harness_error: Some(format!("world {} (seed {}): {}", idx, ws, e.0)), env_names: vec![], world: None },
+        Err(e) => return WorldOutcome { idx, seed: ws, stats: st, divergence: None, harness_error: Some(format!("world {} (seed {}): {}", idx, ws, e.0)), env_names: vec![], fs_names: vec![], world: None },
     };
 
     let reference = &logs[0];
@@ -264,6 +275,7 @@ fn run_world(env: &Env, idx: usize, ws: u64, corpus: &corpus::Corpus, po: &PlanO
 
     let mut divergence: Option<(Divergence, bool)> = None;
     let mut env_names: BTreeSet<String> = BTreeSet::new();
+    let mut fs_names: BTreeSet<String> = BTreeSet::new();
     for (hi, (h, log)) in w.hosts.iter().zip(logs.iter()).enumerate() {
         st.hosts += 1;
         st.expansions += log.obs.len() as u64;
@@ -279,6 +291,16 @@ fn run_world(env: &Env, idx: usize, ws: u64, corpus: &corpus::Corpus, po: &PlanO
         for n in log.env_names.split(';').filter(|x| !x.is_empty()) {
             env_names.insert(n.to_string());
         }
+        st.fs_calls_in_expansion += log.fs_calls;
+        for n in log.fs_names.split(';').filter(|x| !x.is_empty()) {
+            fs_names.insert(n.to_string());
+            st.fs_names_in_expansion.insert(n.to_string());
+        }
+        let n_exp = h.events.iter().filter(|e| matches!(e, Event::Expand { .. })).count();
+        if n_exp >= 250 {
+            st.marathon_hosts += 1;
+        }
+        st.longest_history = st.longest_history.max(n_exp);
         st.sim_clock_min_ns = st.sim_clock_min_ns.min(h.clock_epoch_ns);
         st.sim_clock_max_ns = st.sim_clock_max_ns.max(h.clock_epoch_ns.saturating_add(h.clock_step_ns.saturating_mul(1 << 20)));
         st.distinct_histories.insert(events_hash(&h.events));
@@ -302,7 +324,7 @@ fn run_world(env: &Env, idx: usize, ws: u64, corpus: &corpus::Corpus, po: &PlanO
         for n in fault_names(fired) {
             *st.fault_fired_hosts.entry(n.to_string()).or_default() += 1;
         }
-        st.distinct_fault_vectors.insert(fnv64(format!("{:?}|{}|{}|{}|{}|{:?}|{:?}", h.env, h.entropy_seed, h.clock_epoch_ns, h.clock_step_ns, h.pid, h.cwd, h.argv).as_bytes()));
+        st.distinct_fault_vectors.insert(fnv64(format!("{:?}|{}|{}|{}|{}|{:?}|{:?}|{:?}|{:?}|{:?}|{:?}", h.env, h.entropy_seed, h.clock_epoch_ns, h.clock_step_ns, h.pid, h.cwd, h.argv, h.hostname, h.uid, h.ncpu, h.fs_map).as_bytes()));
 
         // position of each observation in the host's history, counting expansions only
         let mut n_before = 0usize;
@@ -386,7 +408,7 @@ fn run_world(env: &Env, idx: usize, ws: u64, corpus: &corpus::Corpus, po: &PlanO
     }
 
     let keep = divergence.is_some();
-    WorldOutcome { idx, seed: ws, stats: st, divergence, harness_error: None, env_names: env_names.into_iter().collect(), world: if keep { Some(w) } else { None } }
+    WorldOutcome { idx, seed: ws, stats: st, divergence, harness_error: None, env_names: env_names.into_iter().collect(), fs_names: fs_names.into_iter().collect(), world: if keep { Some(w) } else { None } }
 }
 
 fn world_seed(master: u64, idx: usize) -> u64 {
@@ -394,9 +416,9 @@ fn world_seed(master: u64, idx: usize) -> u64 {
     r.next_u64() >> 1
 }
 
-fn plan_opts(cfg: &Cfg, env: &Env, feedback: &[String]) -> PlanOpts {
+fn plan_opts(cfg: &Cfg, env: &Env, feedback: &[String], fs_feedback: &[String]) -> PlanOpts {
     let hooked_available = env.host_bin(Backend::Syn1, Build::Hooked).is_some() && env.host_bin(Backend::Syn2, Build::Hooked).is_some();
-    PlanOpts { backend: cfg.backend, build: cfg.build, hooked_available, feedback: feedback.to_vec(), cwds: vec!["/".into(), "/tmp".into(), cfg.build_dir.to_string_lossy().into_owned(), cfg.repo.to_string_lossy().into_owned()], max_inputs: if cfg.tier == "thorough" { 32 } else { 20 } }
+    PlanOpts { backend: cfg.backend, build: cfg.build, hooked_available, feedback: feedback.to_vec(), fs_feedback: fs_feedback.to_vec(), cwds: vec!["/".into(), "/tmp".into(), cfg.build_dir.to_string_lossy().into_owned(), cfg.repo.to_string_lossy().into_owned()], max_inputs: if cfg.tier == "thorough" { 32 } else { 20 } }
 }
 
 fn run_batch(env: &Env, cfg: &Cfg, corpus: &corpus::Corpus, po: &PlanOpts, indices: &[usize], jobs: usize) -> Vec<WorldOutcome> {
@@ -462,6 +484,8 @@ fn hostcfg_to_json(h: &HostCfg) -> Value {
         "env": h.env.iter().map(|(k, v)| json!([k, v])).collect::<Vec<_>>(),
         "clock_epoch_ns": h.clock_epoch_ns, "clock_step_ns": h.clock_step_ns,
         "pid": h.pid, "cwd": h.cwd, "argv": h.argv, "events": ev,
+        "hostname": h.hostname, "uid": h.uid, "ncpu": h.ncpu,
+        "fs_map": h.fs_map.iter().map(|(k, key, c)| json!([k.to_string(), key, c])).collect::<Vec<_>>(),
     })
 }
 
@@ -478,6 +502,14 @@ fn hostcfg_from_json(v: &Value) -> Option<HostCfg> {
     h.cwd = v["cwd"].as_str()?.to_string();
     for a in v["argv"].as_array()? {
         h.argv.push(a.as_str()?.to_string());
+    }
+    h.hostname = v["hostname"].as_str().map(|s| s.to_string());
+    h.uid = v["uid"].as_u64().map(|x| x as u32);
+    h.ncpu = v["ncpu"].as_u64().map(|x| x as u32);
+    if let Some(a) = v["fs_map"].as_array() {
+        for e in a {
+            h.fs_map.push((e[0].as_str()?.chars().next()?, e[1].as_str()?.to_string(), e[2].as_str()?.to_string()));
+        }
     }
     for e in v["events"].as_array()? {
         let tid = e["tid"].as_u64()? as u32;
@@ -630,6 +662,7 @@ fn cmd_run(cfg: &Cfg) -> i32 {
     total.sim_clock_min_ns = i64::MAX;
     total.sim_clock_max_ns = i64::MIN;
     let mut feedback: BTreeSet<String> = BTreeSet::new();
+    let mut fs_feedback: BTreeSet<String> = BTreeSet::new();
     let mut divergences: Vec<(usize, u64, Divergence, bool, World)> = Vec::new();
     let mut harness_errors: Vec<String> = Vec::new();
     let batch = 64usize;
@@ -643,7 +676,8 @@ fn cmd_run(cfg: &Cfg) -> i32 {
         let hi = (done + batch).min(cfg.worlds);
         let indices: Vec<usize> = (done..hi).collect();
         let fb: Vec<String> = feedback.iter().cloned().collect();
-        let po = plan_opts(cfg, &env, &fb);
+        let ffb: Vec<String> = fs_feedback.iter().cloned().collect();
+        let po = plan_opts(cfg, &env, &fb, &ffb);
         for o in run_batch(&env, cfg, &corpus, &po, &indices, cfg.jobs) {
             if let Some(e) = o.harness_error {
                 harness_errors.push(e);
@@ -654,6 +688,11 @@ fn cmd_run(cfg: &Cfg) -> i32 {
             for n in o.env_names {
                 if !n.starts_with("SIM_") {
                     feedback.insert(n);
+                }
+            }
+            for n in o.fs_names {
+                if fs_feedback.len() < 64 {
+                    fs_feedback.insert(n);
                 }
             }
             total.merge(o.stats);
@@ -680,7 +719,7 @@ fn cmd_run(cfg: &Cfg) -> i32 {
     let mut unreplayable: Vec<(usize, u64)> = Vec::new();
     {
         let fb: Vec<String> = vec![];
-        let po = plan_opts(cfg, &env, &fb);
+        let po = plan_opts(cfg, &env, &fb, &fb);
         let n = 8.min(worlds_done);
         for g in 0..n {
             let idx = g * worlds_done / n.max(1);
@@ -808,6 +847,7 @@ fn cmd_run(cfg: &Cfg) -> i32 {
                 "distinct_history_prefix_lengths": total.prefix_lengths.len(),
                 "heap_perturbation_events": total.perturb_events,
                 "order_policy_events": total.order_policy_events,
+                "marathon_hosts_ge250_expansions": total.marathon_hosts, "longest_history_expansions": total.longest_history,
                 "entropy_requests_served_by_shim": total.getrandom_calls, "entropy_bytes_served": total.getrandom_bytes,
             },
             "reads_of_seams_during_expansions": {
@@ -815,6 +855,7 @@ fn cmd_run(cfg: &Cfg) -> i32 {
                 "clock": total.clock_reads_in_expansion,
                 "getenv": total.getenv_in_expansion, "getenv_names": total.env_names_in_expansion,
                 "getpid": total.getpid_in_expansion,
+                "filesystem_and_identity_calls": total.fs_calls_in_expansion, "filesystem_paths_and_identity_calls": total.fs_names_in_expansion,
                 "note": "getrandom > 0 is expected (std's RandomState keys, once per thread); clock / getenv / getpid are expected to be 0 on a tree that satisfies the property's 'nothing depends on time or environment' clause by construction; non-zero values are not themselves violations (the output must differ to be one) but are fed back: later worlds always vary the variables that were looked up",
             },
             "simulated_time": {"clock_epochs_offered_ns": [total.sim_clock_min_ns, total.sim_clock_max_ns], "note": "nominal: the expander has no timers; the simulated clock only matters if it is read"},
@@ -851,7 +892,7 @@ fn cmd_selftest(cfg: &Cfg) -> i32 {
     let env = make_env(cfg);
     let corpus = corpus::load(&cfg.repo);
     let n = cfg.worlds.max(16);
-    let po = plan_opts(cfg, &env, &[]);
+    let po = plan_opts(cfg, &env, &[], &[]);
     let indices: Vec<usize> = (0..n).collect();
     let digest = |outs: &Vec<WorldOutcome>| -> Vec<(usize, u64, u64, bool)> { outs.iter().map(|o| (o.idx, o.stats.expansions, o.stats.getrandom_calls ^ (o.stats.nontrivial.iter().fold(0u64, |a, b| a.rotate_left(3) ^ b)), o.divergence.is_some())).collect() };
     let a = run_batch(&env, cfg, &corpus, &po, &indices, 1);
